@@ -324,7 +324,7 @@ func TestProp_C12_Sync(t *testing.T) {
 				return
 			}
 			for _, a := range alphabet {
-				if len(prefix) == 0 && a.W == 1 && !sim.Thorough() {
+				if len(prefix) == 0 && a.W == 1 {
 					continue // by symmetry: the first user action is A's (the final abort is tried from both sides)
 				}
 				rec(append(prefix, a))
